@@ -214,6 +214,7 @@ package lib
 //@   ensures @C08 @C09: result == nil && old(trackedReg(r, d)) == nil ==> trackedReg(r, d) == d && !d.Valid
 //@   ensures @C08 @C09: old(trackedReg(r, d)) != nil ==> result == nil && trackedReg(r, d) == old(trackedReg(r, d)) && trackedReg(r, d).Valid == old(trackedReg(r, d).Valid)
 //@   ensures @C09: result != nil ==> trackedReg(r, d) == old(trackedReg(r, d))
+//@   ensures @C07: result != nil ==> !(d.Transport in r.transports)
 //@   assigns allof(DecoyRegistration.Valid), allof(DecoyRegistration.regCount), allmaps(r.decoys), allmaps(r.decoys[""]), allmaps(r.decoysTimeouts), allof(DecoyTimeout.status), now()
 
 //@ func (r *RegisteredDecoys) totalRegistrations() int
@@ -226,6 +227,8 @@ package lib
 //@ func (r *RegisteredDecoys) Track(d *DecoyRegistration) error
 //@   requires r != nil && d != nil && !held(&r.m) && rheld(&r.m) == 0
 //@   ensures @C09: !held(&r.m) && rheld(&r.m) == 0
+//@   ensures @C07: result == nil && old(trackedReg(r, d)) == nil ==> trackedReg(r, d) == d && !d.Valid
+//@   ensures @C07: result != nil ==> !(d.Transport in r.transports)
 //@   assigns allof(DecoyRegistration.Valid), allof(DecoyRegistration.regCount), allmaps(r.decoys), allmaps(r.decoys[""]), allmaps(r.decoysTimeouts), allof(DecoyTimeout.status), now(), held(&r.m), acq(&r.m)
 
 //@ func (r *RegisteredDecoys) TrackIfNotExists(d *DecoyRegistration) (bool, error)
@@ -270,6 +273,7 @@ package lib
 //@ func (r *RegisteredDecoys) RegistrationExists(d *DecoyRegistration) *DecoyRegistration
 //@   requires r != nil && d != nil && !held(&r.m) && rheld(&r.m) == 0
 //@   ensures @C09: !held(&r.m) && rheld(&r.m) == 0
+//@   ensures @C07: result == trackedReg(r, d)
 //@   assigns rheld(&r.m), acq(&r.m)
 
 //@ func (r *RegisteredDecoys) TotalRegistrations() int
@@ -392,6 +396,9 @@ package lib
 //@   atcall IsBlocklistedPhantom after: snap blockedLate := res
 //@   atcall tryShareRegistrationOverAPI before: assert @C07: arg0 == reg && *reg.RegistrationSource == 1 && (regPrescanned(reg) || !isV4(reg.PhantomIp) || (defined(liveVerdict) && !liveVerdict))
 //@   atcall AddRegistration before: assert @C07: arg1 == reg && defined(validated) && validated
+// the registration that becomes valid (the tracked one, see register) is the object whose conditions were checked
+// (in the absence of concurrent ingests of the same registration; the concurrent case is C09's)
+//@   atcall AddRegistration before: assert @C07 @C06: trackedReg(rm.registeredDecoys, reg) == reg
 //@   atcall AddRegistration before: assert @C07: defined(covertOK) && covertOK != "" && reg.Covert == covertOK
 //@   atcall AddRegistration before: assert @C07: regPrescanned(reg) || !isV4(reg.PhantomIp) || (defined(liveVerdict) && !liveVerdict)
 //@   atcall AddRegistration before: assert @C07: *reg.RegistrationSource == 1 ==> defined(blockedLate) && !blockedLate
